@@ -1323,6 +1323,46 @@ class Interp(object):
                     return r
             if qual in self.havoc:
                 return self._havoc_call(f)
+        memo_key = None
+        decos = getattr(f.node, 'decorator_list', None)
+        if decos:
+            for d in decos:
+                kind = self._decorator_kind(d, f.module)
+                if kind == 'memo':
+                    try:
+                        memo_key = (qual or id(f.node), tuple(_hashable(x) for x in args), tuple(sorted((k, _hashable(v)) for k, v in kwargs.items())))
+                        hash(memo_key)
+                    except TypeError:
+                        raise Undecidable('memoised call with unhashable arguments')
+                    memo = self.__dict__.setdefault('_memo', {})
+                    if memo_key in memo:
+                        return memo[memo_key]          # the very same object as the first time
+                elif kind != 'transparent':
+                    raise Undecidable('function decorated with %s' % ast.unparse(d))
+        if memo_key is not None:
+            v = self._call_closure_body(f, args, kwargs, qual)
+            self._memo[memo_key] = v
+            return v
+        return self._call_closure_body(f, args, kwargs, qual)
+
+    def _decorator_kind(self, d, module):
+        txt = ast.unparse(d)
+        base = d.func if isinstance(d, ast.Call) else d
+        name = ast.unparse(base)
+        if name in ('property', 'staticmethod', 'classmethod') or name.endswith('.setter') or name.endswith('.getter'):
+            return 'transparent'
+        last = name.split('.')[-1]
+        r = None
+        if isinstance(base, ast.Name) and module is not None:
+            r = self.model.resolve_global(module, base.id)
+        dotted = r[1] if r and r[0] == 'ext' else name
+        if last in ('lru_cache', 'cache', 'memoize', 'memoized', 'cached') and (dotted.startswith('functools') or r is None or r[0] == 'ext'):
+            return 'memo'
+        if last == 'wraps':
+            return 'transparent'
+        return txt
+
+    def _call_closure_body(self, f, args, kwargs, qual):
         self.depth += 1
         if self.depth > self.opts.get('max_depth', MAX_DEPTH):
             self.depth -= 1
